@@ -82,6 +82,27 @@ def run(R):
                 if rk == "Ref" and not rvv[2]["projection"]:
                     cursor_local = rvv[2]["local"]
     edges, push_cursor, exits = [], [], []
+    # loops that read the bit vector by index (the unary runs), and blocks from which `Some` is reachable
+    bit_index_blocks = {bi for bi, c, a, d in body.call_sites(lambda c: "BitVec" in c.name and "Index" in c.name)}
+    unary_loops = {h: bs for h, bs in loops.items() if bs & bit_index_blocks and not (push_sites and push_sites[0] in bs and len(bs) == len(outer_body))}
+    some_blocks = set()
+    for bi, bb in enumerate(body.blocks):
+        for stt_ in bb["statements"]:
+            k_, v_ = kind_of(stt_["kind"])
+            if k_ == "Assign" and v_[0]["local"] == 0 and not v_[0]["projection"]:
+                rk_, rv_ = kind_of(v_[1])
+                if rk_ == "Aggregate":
+                    ak_, av_ = kind_of(rv_[0])
+                    if ak_ == "Adt" and av_[1] == 1:
+                        some_blocks.add(bi)
+    reach_some = set()
+    work_ = list(some_blocks)
+    while work_:
+        b_ = work_.pop()
+        if b_ in reach_some:
+            continue
+        reach_some.add(b_)
+        work_.extend(body.pred[b_])
 
     def cursor_bound(fr, stt):
         if cursor_local is None:
@@ -100,18 +121,16 @@ def run(R):
             return
         stt = kw["st"]
         if ev == "edge":
-            d = kw["discr"]
-            bitvals = {v.vid for k_, v in stt.store.items() if k_[0] == "h" and k_[1] == "bit" and type(v) is I}
-            if d.vid in bitvals:
-                for h, bs in loops.items():
-                    if kw["bb"] in bs and kw["target"] not in bs:
-                        exits.append((kw["bb"], cursor_bound(fr, stt)))
+            for h, bs in unary_loops.items():
+                if kw["bb"] in bs and kw["target"] not in bs and kw["target"] in reach_some:
+                    exits.append((kw["bb"], cursor_bound(fr, stt)))
             for h, bs in last_loops.items():
                 if kw["bb"] in bs and kw["target"] in bs and body.local_ty(cursor_local if cursor_local is not None else 0).tag == "Uint":
                     edges.append((kw["bb"], kw["target"], cursor_bound(fr, stt)))
             return
         if ev == "enter" and kw["callee"].name.endswith("::push"):
-            push_cursor.append((kw["bb"], cursor_bound(fr, stt)))
+            lp = tuple(t[2] for t in stt.part if len(t) == 3 and t[1] == "lp" and t[0] in last_loops)
+            push_cursor.append((kw["bb"], cursor_bound(fr, stt), lp))
         if ev == "enter" and kw["callee"].name.endswith("::push"):
             v = kw["args"][1]
             if type(v) is not I:
@@ -180,11 +199,13 @@ def run(R):
             except Exception:
                 pass
     ctx.observers.append(obs)
+    ctx.hooks["peel_filter"] = lambda fr, h: fr.inst is dec and h in last_loops
     st = St()
     x = S.bytes_slice(st, "x", 0, 1 << 32)
     n0 = len(ctx.obl)
     outs = S.run(dec, [x, ctx.mk_int(st, 1, 1 << 16, usz)], st)
     ctx.observers.remove(obs)
+    ctx.hooks.pop("peel_filter", None)
     ctx.partition_fns = None
     record_obligations(R, "C07-asserts", S.obligations_since(n0), site_prefix="[decompress, len <= 2^32, n in [1,2^16]] ")
     site = "decompress"
@@ -219,21 +240,26 @@ def run(R):
             f"the cursor after the last terminator may equal the buffer's bit length (bound {max([c for c in cursors if c is not None], default=None)}): exactly-full encodings are readable",
             f"the cursor after the last terminator is at most bitlen{min([c for c in cursors if c is not None], default='?')}: an encoding that fills the budget exactly (which compress emits) is rejected",
             key="cursor")
-    # (7b) in the last round's unary loop the cursor may advance up to the last bit of the buffer
-    inloop = [b for (_, _, b) in edges if b is not None]
-    R.check(inloop and max(inloop) >= -1, "C07-cursor", site + " (last coefficient's unary run)",
-            f"inside the loop the cursor can be as far as the last buffer bit (bound bitlen{max(inloop) if inloop else '?'})",
-            f"inside the last coefficient's unary loop the cursor is kept at most at bitlen{max(inloop) if inloop else '?'}: a terminator on the very last bit (an exactly-full "
-            "encoding, which compress emits) is rejected when the last coefficient has a non-empty unary part", key="cursor-loop")
+    # (7b) at the last push, in every loop-peeling partition (empty / non-empty unary part), the terminator may sit on the last buffer bit
+    if push_sites:
+        groups = {}
+        for b, c, lp in push_cursor:
+            if b == push_sites[-1] and c is not None:
+                groups[lp] = max(groups.get(lp, -10 ** 9), c)
+        ok = len(groups) >= 2 and all(v == -1 for v in groups.values())
+        R.check(ok, "C07-cursor", site + " (last coefficient)",
+                f"both with an empty and with a non-empty unary part ({sorted(groups)}) the terminator of the last coefficient may sit on the last buffer bit",
+                f"terminator position bound per loop-peeling class {groups}: in some class the last buffer bit cannot hold the terminator, so an exactly-full encoding (which compress emits) is rejected",
+                key="cursor-loop")
     # (8) every unary run ends on a terminator bit that was read inside the buffer
     for bb in sorted({b for b, _ in exits}):
         bs = [c for b, c in exits if b == bb]
         ok = all(c is not None and c <= -1 for c in bs)
-        R.check(ok, "C07-terminator", f"{site} unary-run exit at {body.span_of(bb)}", "the run is left only on a terminator bit read strictly inside the buffer",
+        R.check(ok, "C07-terminator", f"{site} unary-run exit at {body.span_of(bb)}", "the run is left (towards acceptance) only with the cursor strictly inside the buffer, i.e. on a terminator bit that was read",
                 f"the unary run can be left with the cursor at bitlen+{max([c for c in bs if c is not None], default='?')}: a truncated encoding without terminator bit is accepted",
                 key=f"terminator|{sorted({b for b, _ in exits}).index(bb)}")
-    nloops_with_bits = len({b for b, _ in exits})
-    R.check(nloops_with_bits >= 2, "C07-terminator", site, f"{nloops_with_bits} unary-run loops exit on a bit test", f"only {nloops_with_bits} loop(s) exit on a bit that was read from the buffer (expected one per push site): a run may end without reading a terminator", key="terminator-count")
+    R.check(len(unary_loops) >= 2 and len({b for b, _ in exits}) >= 2, "C07-terminator", site, f"{len(unary_loops)} unary-run loops, {len({b for b, _ in exits})} accepting exits examined",
+            f"{len(unary_loops)} unary-run loop(s) / {len({b for b, _ in exits})} accepting exit(s) found (expected one loop per push site)", key="terminator-count")
     # ---- compress_coefficient: layout per unary length
     cc = S.find("encoding::compress_coefficient")
     bad = []
